@@ -147,6 +147,25 @@ impl StateMachine<'_> {
         Ok(handled_line)
     }
 
+    /// The hunk header is held back until the next line shows whether it belongs to a
+    /// submodule diff (where the commit range is shown instead). Emit it as soon as any other
+    /// line follows, or the input ends, so that it is not lost when that line is not a hunk line
+    /// (e.g. another hunk header, or the next file).
+    pub fn handle_pending_hunk_header_line(
+        &mut self,
+        at_end_of_input: bool,
+    ) -> std::io::Result<()> {
+        if let State::HunkHeader(diff_type, parsed_hunk_header, line, raw_line) =
+            &self.state.clone()
+        {
+            if at_end_of_input || !self.line.starts_with("-Subproject commit ") {
+                self.emit_hunk_header_line(parsed_hunk_header, line, raw_line)?;
+                self.state = State::HunkZero(diff_type.clone(), None);
+            }
+        }
+        Ok(())
+    }
+
     /// Emit the hunk header, with any requested decoration.
     pub fn emit_hunk_header_line(
         &mut self,
